@@ -25,6 +25,7 @@ type plan struct {
 	Sweep      []string
 	Lemmas     []string
 	Replay     [][2]string // obligation substring -> adapter
+	Except     []string    // obligation-name substrings that belong to another property's claim and are not counted here
 	Assume     []string
 	NotDecided []string
 	Bounded    []string
@@ -81,6 +82,8 @@ func readPlan(path string) (*plan, error) {
 			if len(f) == 2 {
 				p.Replay = append(p.Replay, [2]string{f[0], f[1]})
 			}
+		case "except":
+			p.Except = append(p.Except, rest)
 		case "assume":
 			p.Assume = append(p.Assume, rest)
 		case "notdecided":
@@ -304,6 +307,15 @@ func checkCmd(args []string) {
 		}
 		n, d := 0, 0
 		for _, o := range u.ex.Out.Obls {
+			skip := false
+			for _, ex := range pl.Except {
+				if strings.Contains(o.Name, ex) {
+					skip = true
+				}
+			}
+			if skip {
+				continue
+			}
 			total++
 			n++
 			solverTime += o.TimeS
@@ -553,6 +565,8 @@ func adapterInput(adapter string, vals map[string]string) (string, bool) {
 			S, T, okS, okT = "", "", false, false
 		}
 		return fmt.Sprintf(`{"S":%s,"T":%s,"s":"%s","t":"%s","domain":%s}`, opt(S, okS), opt(T, okT), s, t, dom()), true
+	case "process_f5":
+		return `{}`, true
 	case "process_vvec":
 		th, ok1 := pick(vals, `threshold`)
 		ln, ok2 := pick(vals, `^len\(vVec\)$`, `len\(.*VVec`)
@@ -580,6 +594,7 @@ var adapterPkg = map[string][2]string{
 	"rules_prop": {"rules/standard", "TestVerifReplayRulesProp"},
 	"regexify":   {"services/checker/static", "TestVerifReplayRegexify"},
 	"process_vvec": {"services/process/standard", "TestVerifReplayProcessVVec"},
+	"process_f5":   {"services/process/standard", "TestVerifReplayProcessF5"},
 }
 
 // runReplay injects the adapter as an in-package test through -overlay (nothing is written to the repo).
